@@ -30,7 +30,7 @@ ASSUMPTIONS = [
 ]
 
 FAULTS_EVALUATE = ["drop", "extra", "nontensor", "dim", "dim0", "order"]
-FAULTS_METHOD = ["drop", "extra", "nontensor", "dim", "dim0", "order", "mode", "ordering", "name", "positional"]
+FAULTS_METHOD = ["drop", "extra", "nontensor", "dim", "dim0", "order", "mode", "ordering", "name", "positional", "same_object"]
 ALLOWED = {"TypeError", "ValueError", "UndefinedReferenceError", "UnusedFormatError", "IncorrectDimensionsError"}
 
 
@@ -143,6 +143,17 @@ def apply_fault(case, inputs, formats):
         if not names:
             return inputs, formats, "", False, False
         return inputs, formats, "inputs passed positionally (parameters are keyword-only)", True, True
+    if kind == "same_object":
+        # one Tensor object passed for two parameters that expect different formats; every dimension has the same
+        # size, so the dimension cross-check cannot refuse the call by accident
+        pairs = [(a, b) for a in names for b in names if a != b and C.fmt_parts(formats[a]) != C.fmt_parts(formats[b])]
+        if not pairs:
+            return inputs, formats, "", False, False
+        a, b = pairs[f["pick"] % len(pairs)]
+        size = 2
+        rebuilt = {n: empty_tensor((size,) * len(C.fmt_parts(formats[n])[0]), formats[n]) for n in names}
+        rebuilt[b] = rebuilt[a]
+        return rebuilt, formats, f"the Tensor object passed for {a} ({formats[a]!r}) is also passed for {b} ({formats[b]!r})", True, False
     if kind in ("drop", "nontensor", "order", "mode", "ordering", "name") and not names:
         return inputs, formats, "", False, False
     inputs = dict(inputs)
